@@ -118,6 +118,7 @@ def run_case(case, tier):
     rig = ManagerRig(stepped=True, timecode=bool(case.get("tc")))
     try:
         sc = Scenario(rig, case["seed"])
+        sc.vary_source = True
         sc.run(case["steps"])
         return judge(sc, case)
     finally:
